@@ -209,6 +209,10 @@ def run_shard(shard, ctx):
             if conv in ("single", "single_replaced"):
                 # ---- (i) condition_on_x -----------------------------------------------------
                 X = al.points(3, Dx, salt=vi + 1)
+                if Dy == 1 and Da == 1 and Dk == 1 and Dx == 1 and link in ("Exp", "CoshM1", "ReLU") and abs(W[0, 1]) > 1e-6:
+                    # evaluation points far from the origin, where the pre-activation is +-25 (the covariance is a scalar:
+                    # its condition number stays 1 however large the noise gets)
+                    X = np.concatenate([X, np.array([[(25.0 - W[0, 0]) / W[0, 1]], [(-25.0 - W[0, 0]) / W[0, 1]]])], axis=0)
                 with ctx.guard("hetero.condition_on_x.call", facts) as g:
                     px = cond.condition_on_x(J(X))
                     got = dict(mu=np.asarray(px.mu), Sigma=np.asarray(px.Sigma), Lambda=np.asarray(px.Lambda), ld=np.asarray(px.ln_det_Sigma))
